@@ -319,7 +319,7 @@ func runSwitch(r *Run, concurrent bool) {
 		var which []string
 		for _, n := range all {
 			for _, bc := range w.backends[n].Conns {
-				if !bc.EOFSeen && !bc.Done && (bc.Phase == "handshake" || bc.Phase == "login" || bc.Phase == "config" || bc.Phase == "prejoin") {
+				if !bc.EOFSeen && !bc.Done && !bc.conn.PeerGone() && (bc.Phase == "handshake" || bc.Phase == "login" || bc.Phase == "config" || bc.Phase == "prejoin") {
 					inflight++
 					which = append(which, fmt.Sprintf("%s#%d:%s", n, bc.idx, bc.Phase))
 				}
